@@ -94,10 +94,16 @@ type (
 		cols        []string
 	}
 	createFunction struct{ name string }
-	selectStmt     struct {
-		cols  []expr // nil = *
-		table string
-		where expr
+	orderKey       struct {
+		e    expr
+		desc bool
+	}
+	selectStmt struct {
+		cols          []expr // nil = *
+		table         string
+		where         expr
+		order         []orderKey
+		limit, offset expr
 	}
 	insertStmt struct {
 		table     string
@@ -240,6 +246,46 @@ func (p *parser) identList() ([]string, *Error) {
 	return out, p.expectSym(")")
 }
 
+// tableRef parses [schema .] table [[AS] alias]; the schema (only `public`
+// makes sense here) and the alias are dropped: statements have one table, a
+// qualified column names it either way.
+func (p *parser) tableRef() (string, *Error) {
+	name, err := p.ident()
+	if err != nil {
+		return "", err
+	}
+	if p.isSym(".") {
+		p.pos++
+		if name, err = p.ident(); err != nil {
+			return "", err
+		}
+	}
+	if p.acceptKw("as") {
+		if _, err := p.ident(); err != nil {
+			return "", err
+		}
+		return name, nil
+	}
+	if t := p.peek(); t.kind == tIdent {
+		switch t.lower {
+		case "where", "set", "returning", "order", "limit", "offset", "for", "using", "values", "from", "add", "alter", "on", "group", "join", "inner", "left", "default", "only":
+		default:
+			if !p.isSymAt(1, "(") { // (INSERT INTO t (cols): no alias there)
+				p.pos++
+			}
+		}
+	}
+	return name, nil
+}
+
+func (p *parser) isSymAt(off int, s string) bool {
+	if p.pos+off >= len(p.toks) {
+		return false
+	}
+	t := p.toks[p.pos+off]
+	return t.kind == tSymbol && t.text == s
+}
+
 func parseStatement(src string) (any, *Error) {
 	toks, err := lex(src)
 	if err != nil {
@@ -329,7 +375,7 @@ func (p *parser) selectStmt() (any, *Error) {
 	if err := p.expectKw("from"); err != nil {
 		return nil, err
 	}
-	if s.table, err = p.ident(); err != nil {
+	if s.table, err = p.tableRef(); err != nil {
 		return nil, err
 	}
 	if p.acceptKw("where") {
@@ -337,7 +383,48 @@ func (p *parser) selectStmt() (any, *Error) {
 			return nil, err
 		}
 	}
-	if p.isKw("order") || p.isKw("limit") || p.isKw("group") || p.isKw("join") || p.isKw("inner") || p.isKw("left") || p.isSym(",") || p.isKw("for") {
+	if p.acceptKw("order", "by") {
+		for {
+			e, err := p.expr()
+			if err != nil {
+				return nil, err
+			}
+			desc := false
+			if p.acceptKw("desc") {
+				desc = true
+			} else {
+				p.acceptKw("asc")
+			}
+			if p.acceptKw("nulls") {
+				if !p.acceptKw("first") && !p.acceptKw("last") {
+					return nil, p.errHere("expected FIRST or LAST")
+				}
+			}
+			s.order = append(s.order, orderKey{e, desc})
+			if !p.acceptSym(",") {
+				break
+			}
+		}
+	}
+	for p.isKw("limit") || p.isKw("offset") {
+		isLimit := p.isKw("limit")
+		p.pos++
+		e, err := p.expr()
+		if err != nil {
+			return nil, err
+		}
+		if isLimit {
+			s.limit = e
+		} else {
+			s.offset = e
+		}
+	}
+	if p.acceptKw("for") {
+		if !p.acceptKw("update") && !p.acceptKw("share") && !p.acceptKw("no", "key", "update") && !p.acceptKw("key", "share") {
+			return nil, p.errHere("expected a locking clause")
+		}
+	}
+	if p.isKw("group") || p.isKw("join") || p.isKw("inner") || p.isKw("left") || p.isSym(",") || p.isKw("having") || p.isKw("union") {
 		return nil, p.errHere("SELECT clause not supported by the simulator")
 	}
 	return s, nil
@@ -357,7 +444,7 @@ func (p *parser) insertStmt() (any, *Error) {
 	}
 	var s insertStmt
 	var err *Error
-	if s.table, err = p.ident(); err != nil {
+	if s.table, err = p.tableRef(); err != nil {
 		return nil, err
 	}
 	if p.isSym("(") {
@@ -410,7 +497,7 @@ func (p *parser) insertStmt() (any, *Error) {
 func (p *parser) updateStmt() (any, *Error) {
 	var s updateStmt
 	var err *Error
-	if s.table, err = p.ident(); err != nil {
+	if s.table, err = p.tableRef(); err != nil {
 		return nil, err
 	}
 	if err := p.expectKw("set"); err != nil {
@@ -485,7 +572,7 @@ func (p *parser) deleteStmt() (any, *Error) {
 	}
 	var s deleteStmt
 	var err *Error
-	if s.table, err = p.ident(); err != nil {
+	if s.table, err = p.tableRef(); err != nil {
 		return nil, err
 	}
 	if p.acceptKw("where") {
@@ -502,7 +589,7 @@ func (p *parser) deleteStmt() (any, *Error) {
 func (p *parser) copyStmt() (any, *Error) {
 	var s copyStmt
 	var err *Error
-	if s.table, err = p.ident(); err != nil {
+	if s.table, err = p.tableRef(); err != nil {
 		return nil, err
 	}
 	if p.isSym("(") {
@@ -702,6 +789,17 @@ func (p *parser) colDef() (colDef, *Error) {
 		case p.acceptKw("not", "null"):
 			c.notNull = true
 		case p.acceptKw("null"):
+		case p.acceptKw("generated"):
+			if !p.acceptKw("by", "default") && !p.acceptKw("always") {
+				return c, p.errHere("expected BY DEFAULT or ALWAYS")
+			}
+			if err := p.expectKw("as"); err != nil {
+				return c, err
+			}
+			if err := p.expectKw("identity"); err != nil {
+				return c, err
+			}
+			c.typ.serial = true
 		case p.acceptKw("default"):
 			if c.def, err = p.exprNoAnd(); err != nil {
 				return c, err
@@ -759,6 +857,11 @@ func (p *parser) createStmt() (any, *Error) {
 		if s.name, err = p.ident(); err != nil {
 			return nil, err
 		}
+		if p.acceptSym(".") { // schema-qualified: the schema is dropped
+			if s.name, err = p.ident(); err != nil {
+				return nil, err
+			}
+		}
 		if err := p.expectSym("("); err != nil {
 			return nil, err
 		}
@@ -795,7 +898,7 @@ func (p *parser) createStmt() (any, *Error) {
 		if err := p.expectKw("on"); err != nil {
 			return nil, err
 		}
-		if s.table, err = p.ident(); err != nil {
+		if s.table, err = p.tableRef(); err != nil {
 			return nil, err
 		}
 		if p.acceptKw("using") {
@@ -837,7 +940,7 @@ func (p *parser) alterStmt() (any, *Error) {
 		return nil, err
 	}
 	p.acceptKw("only")
-	table, err := p.ident()
+	table, err := p.tableRef()
 	if err != nil {
 		return nil, err
 	}
@@ -956,6 +1059,25 @@ func (p *parser) cmpExpr() (expr, *Error) {
 			default:
 				return nil, p.errHere("expected NULL after IS")
 			}
+		case p.isKw("between") || p.isKw("not", "between"):
+			not := p.acceptKw("not")
+			p.acceptKw("between")
+			lo, err := p.addExpr()
+			if err != nil {
+				return nil, err
+			}
+			if err := p.expectKw("and"); err != nil {
+				return nil, err
+			}
+			hi, err := p.addExpr()
+			if err != nil {
+				return nil, err
+			}
+			var e expr = eBin{"and", eBin{">=", l, lo}, eBin{"<=", l, hi}}
+			if not {
+				e = eNot{e}
+			}
+			l = e
 		case p.isKw("in") || p.isKw("not", "in"):
 			not := p.acceptKw("not")
 			p.acceptKw("in")
